@@ -416,6 +416,17 @@ def r_dangling(db, rep):
                 rep.viol("%s#dangling-%s" % (ld.qn, fld), ld.nloc(n),
                          "%s returns an object whose field %s points to freed memory; %s use(s) it" % (
                              ld.qn, fld, ", ".join(sorted(set(u.qn for u in us))[:6])), ld.qn)
+            # the destructor of the returned object frees the same field again
+            rep.ob()
+            for c in fam:
+                for d in db.methods_of(c):
+                    if not d.is_dtor or not d.body:
+                        continue
+                    for x in d.nodes():
+                        if x["k"] == "CXXDeleteExpr" and access_path(d, x["sub"]) == ("this", fld):
+                            rep.viol("%s#double-free-%s" % (ld.qn, fld), d.nloc(x),
+                                     "%s deletes field %s of the object it returns and leaves the pointer in place; %s deletes it again: destroying a "
+                                     "loaded object frees the same block twice" % (ld.qn, fld, d.qn), d.qn)
 
 
 @rule("R-CONSTPURE", 30, "the bundled succinct structures' query methods (access / rank* / select* / getSize ... declared const) write "
